@@ -564,7 +564,14 @@ def main():
     #    classes that own the process-wide function tables.  Every (reachable function, process-wide variable it mentions) pair
     #    is an entry; the static members (initialize, terminate, install/uninstallExternalFunctionGlobal, ICUCleanUp) are the
     #    documented single-threaded phase and are not roots.
-    CG = ["XalanTransformer", "XSLTProcessorEnvSupportDefault", "XPathEnvSupportDefault"]
+    # the per-thread objects a transformation runs on.  Their virtual interfaces are what the (const) stylesheet interpreter
+    # calls back into, so EVERY non-static member function of these classes is a root, plus StylesheetRoot::process, the
+    # entry into const execution (the interpreter itself -- Elem*, XPath -- is covered by the const-execution entries above).
+    CG = ["XalanTransformer", "XSLTProcessorEnvSupportDefault", "XPathEnvSupportDefault", "XSLTEngineImpl",
+          "StylesheetExecutionContextDefault", "XPathExecutionContextDefault", "StylesheetRoot"]
+    IFACE = {"XSLTProcessorEnvSupport": "XSLTProcessorEnvSupportDefault", "XPathEnvSupport": "XSLTProcessorEnvSupportDefault",
+             "XSLTProcessor": "XSLTEngineImpl", "StylesheetExecutionContext": "StylesheetExecutionContextDefault",
+             "XPathExecutionContext": "StylesheetExecutionContextDefault", "ExecutionContext": "StylesheetExecutionContextDefault"}
     for c in CG:
         if c not in classes:
             print("c07_share: class %s not found (call graph of the per-thread API)" % c)
@@ -597,13 +604,15 @@ def main():
     def callees(owner, body):
         res = set()
         local = {}
-        for m in re.finditer(r"\b([A-Z]\w*)\s*[&*]?\s+(\w+)\s*(?:\(|;|=)", body):
+        for m in re.finditer(r"\b([A-Z]\w*)\s*[&*]?\s*(?:const\s+)?\s+(\w+)\s*(?:\(|;|=|,|\))", body):
+            if m.group(1) in IFACE and ("&" in m.group(0) or "*" in m.group(0)):
+                local[m.group(2)] = IFACE[m.group(1)]       # a reference/pointer to the abstract interface: the default implementation
             if m.group(1) in CG:
                 local[m.group(2)] = m.group(1)
-                if "&" not in m.group(0) and "*" not in m.group(0):     # an object: its constructor and destructor run here
+                if "&" not in m.group(0) and "*" not in m.group(0) and m.group(0).rstrip()[-1] in "(;=":     # an object: its constructor and destructor run here
                     res.add(m.group(1) + "::" + m.group(1))
                     res.add(m.group(1) + "::~" + m.group(1))
-        members = {mem["name"]: [x for x in IDENT.findall(mem["type"]) if x in CG] for mem in classes[owner]["members"]}
+        members = {mem["name"]: [IFACE.get(x, x) for x in IDENT.findall(mem["type"]) if x in CG or x in IFACE] for mem in classes[owner]["members"]}
         for mem in classes[owner]["members"]:
             for x in members.get(mem["name"], []):
                 if "*" not in mem["type"] and "&" not in mem["type"] and not mem["static"]:
@@ -622,8 +631,10 @@ def main():
                 res.add(owner + "::" + m.group(1))
         return res
 
-    roots = [k for k in bodies if k.startswith("XalanTransformer::") and k.split("::")[1] not in classes["XalanTransformer"]["static_methods"]]
-    if "XalanTransformer::doTransform" not in roots or "XalanTransformer::initialize" in roots:
+    roots = [k for k in bodies if k.split("::")[0] != "StylesheetRoot" and k.split("::")[1] not in classes[k.split("::")[0]]["static_methods"]]
+    roots += [k for k in bodies if k == "StylesheetRoot::process"]
+    if "XalanTransformer::doTransform" not in roots or "XalanTransformer::initialize" in roots or "StylesheetRoot::process" not in roots \
+            or "StylesheetExecutionContextDefault::installXalanNumberFormatFactory" in roots:
         print("c07_share: call graph roots wrong (doTransform must be a root, the static initialize must not): %s" % sorted(roots)[:8])
         return 1
     reachable_fn, cgwork = set(), list(roots)
@@ -649,8 +660,10 @@ def main():
         txt = "\n".join(bodies[fn])
         for sc, nm in gvars:
             if re.search(r"\b%s\b" % re.escape(nm), txt):
-                # a file-scope static is only visible in its own file
+                # a file-scope static is only visible in its own file; a static data member is named bare only inside its class
                 if "/" in sc and os.path.basename(sc).split(".")[0] != fn.split("::")[0]:
+                    continue
+                if "/" not in sc and sc != fn.split("::")[0] and not re.search(r"\b%s\s*::\s*%s\b" % (re.escape(sc), re.escape(nm)), txt):
                     continue
                 entries.append({"kind": "transformTouch", "scope": "%s::%s" % (sc, nm), "name": fn, "funcs": [fn],
                                 "where": "call graph of the per-thread XalanTransformer API"})
